@@ -11,10 +11,12 @@ class Rec:
     """records what _ssl_socket does to a real-ish context (attribute assignments go to a real SSLContext)"""
 
 
-def plan_of(sslopt, env=None):
-    """Run the real _ssl_socket with a wrap_socket-less real SSLContext subclass: returns the context attributes."""
+def plan_of(sslopt, env=None, hostname="url-host.test"):
+    """Run the real _ssl_socket with a wrap_socket-less real SSLContext subclass: returns the attributes of the context
+    that actually wrapped the socket."""
     from websocket import _http
     made = []
+    wrapped = []
 
     class Ctx(ssl.SSLContext):
         def __new__(cls, proto=ssl.PROTOCOL_TLS_CLIENT):
@@ -32,6 +34,7 @@ def plan_of(sslopt, env=None):
 
         def wrap_socket(self, sock, **kw):
             self.wrap_kw = kw
+            wrapped.append(self)
             return ("wrapped", sock)
     fake = types.SimpleNamespace(**{k: getattr(ssl, k) for k in dir(ssl) if not k.startswith("__")})
     fake.SSLContext = Ctx
@@ -41,7 +44,7 @@ def plan_of(sslopt, env=None):
         os.environ["WEBSOCKET_CLIENT_CA_BUNDLE"] = env
     try:
         try:
-            _http._ssl_socket("rawsock", dict(sslopt), "url-host.test")
+            _http._ssl_socket("rawsock", dict(sslopt), hostname)
         except Exception as e:
             return {"error": type(e).__name__}
     finally:
@@ -49,7 +52,9 @@ def plan_of(sslopt, env=None):
         os.environ.pop("WEBSOCKET_CLIENT_CA_BUNDLE", None)
         if saved_env is not None:
             os.environ["WEBSOCKET_CLIENT_CA_BUNDLE"] = saved_env
-    c = made[0]
+    if not wrapped:
+        return {"error": "socket not wrapped"}
+    c = wrapped[-1]
     return {"verify_mode": int(c.verify_mode), "check_hostname": bool(c.check_hostname), "server_hostname": c.wrap_kw.get("server_hostname"),
             "default_certs": c.loaded_default, "locations": c.loaded_locations}
 
@@ -75,6 +80,25 @@ def run(ctx):
         if got != w:
             T.fail("spec", {"sslopt": str(opt)}, str(w), str(got), {"site": "_ssl_socket", "cls": "option-affects-other-check", "option": name},
                    what=f"sslopt {opt} must affect only its own check")
+    # every host form is authenticated the same way (names, IPv4 and IPv6 literals)
+    for hostname in ("192.0.2.10", "2001:db8::7", "xn--bcher-kva.example", "UPPER.example"):
+        for opt in ({}, {"check_hostname": True}, {"ca_certs": "/x/ca.pem"}):
+            got = plan_of(opt, hostname=hostname)
+            T.case(("hostform", hostname, str(opt)), bucket="direct", sample={"host": hostname, "sslopt": str(opt), "plan": got})
+            if got.get("check_hostname") is not True or got.get("verify_mode") != int(ssl.CERT_REQUIRED) or got.get("server_hostname") != hostname:
+                T.fail("spec", {"host": hostname, "sslopt": str(opt)}, f"CERT_REQUIRED, check_hostname, server_hostname={hostname}", str(got),
+                       {"site": "_ssl_socket", "cls": "host-form-not-authenticated", "literal": hostname[0].isdigit()},
+                       what=f"wss host {hostname!r}: the peer's name must be verified by default whatever the host form")
+    # one connection's relaxed options must not leak into the next connection of the same process
+    for first in ({"ca_certs": "/x/ca.pem", "check_hostname": False}, {"cert_reqs": ssl.CERT_NONE}, {"check_hostname": False}):
+        plan_of(first)
+        second = {k: v for k, v in first.items() if k == "ca_certs"}
+        got = plan_of(second)
+        T.case(("sequence", str(first)), bucket="direct", sample={"first": str(first), "then": str(second), "plan": got})
+        if got.get("check_hostname") is not True or got.get("verify_mode") != int(ssl.CERT_REQUIRED):
+            T.fail("spec", {"first": str(first), "then": str(second)}, "the second connection is fully verified", str(got),
+                   {"site": "_ssl_socket", "cls": "relaxation-leaks-across-connections"},
+                   what="a relaxed option of an earlier connection weakened a later connection that did not ask for it")
     got = plan_of({"cert_reqs": ssl.CERT_NONE})
     T.case(("single", "CERT_NONE"), bucket="direct", sample={"sslopt": "CERT_NONE", "plan": got})
     if got.get("verify_mode") != int(ssl.CERT_NONE):
